@@ -27,12 +27,7 @@ META = {
 }
 
 
-def consumers(S):
-    out = {}
-    for f in S["rust"]:
-        for fn in f.get("fns", []):
-            out[fn["name"]] = fn
-    return out
+from grammar import consumers
 
 
 def lang_inclusion(S, rep):
@@ -91,6 +86,16 @@ def list_level(S, g, rep):
                         wildcard_empty = wildcard_empty or a["empty_body"]
                     elif p.startswith("Rule::"):
                         (ignored if a["empty_body"] else handled).add(p[6:])
+        # `children.filter(|c| c.as_rule() == Rule::transaction).map(Self::transaction)`: the kept kinds are handled when the
+        # function also calls their consumer; everything else is dropped by the filter (an empty wildcard)
+        for rf in fn.get("rule_filters", []):
+            called = {c.split("::")[-1] for c in fn.get("calls", [])}
+            if rf["method"] in ("filter", "retain") and rf["eq"] and not rf["ne"]:
+                handled |= {k for k in rf["eq"] if k in called}
+                ignored |= {k for k in rf["eq"] if k not in called}
+                wildcard_empty = True
+            elif rf["method"] in ("filter", "retain") and rf["ne"] and not rf["eq"]:
+                ignored |= set(rf["ne"])
         data_kinds = {t for t in alpha if t not in ("COMMENT", "EOI")}
         for t in sorted(alpha):
             if t in data_kinds:
